@@ -505,9 +505,9 @@ class StoreWorld(WorldBase):
 
     def gen_export(self, ch, buses, its):
         h = self._pick_bus(ch, buses)
-        fmt = ch.choice(['zip_pickle', 'zip_pickle', self.config['fmt']])
+        fmt = ch.choice(['zip_pickle', 'zip_pickle', self.config['fmt'], self.config['fmt']])
         return {'op': 'export', 'h': h, 'fmt': fmt, 'fid': max(self.files) + 1, 'out': self.next_h,
-                'mp': ch.choice([None, 1, 2]), 'cform': ch.choice(['map', 'map', 'default', 'bare', 'default_noindex']), 'noenc': ch.chance(0.2)}
+                'mp': ch.choice([None, 1, 2]), 'cform': ch.choice(['map', 'map', 'default', 'bare', 'default_noindex', 'empty_dict', 'empty_dict']), 'noenc': ch.chance(0.2)}
 
     def gen_reopen(self, ch, buses, its):
         fid = ch.choice(sorted(self.files))
@@ -1200,11 +1200,18 @@ class StoreWorld(WorldBase):
             if any((not s['cols']) or (not s['index']) for s in specs):
                 return 'skip'
             cform = op.get('cform', 'map')
+            wcfg = None
             if cform != 'map' and all(s['idepth'] == 1 and s['cdepth'] == 1 for s in specs):
                 # other legitimate forms of the same configuration: a bare StoreConfig, a map that only has a default,
                 # and one that differs from the Bus's own configuration in what is written (no index column)
                 lk = {'label_encoder': str, 'label_decoder': int} if self.config.get('int_labels') else {}
-                if cform == 'bare':
+                if cform == 'empty_dict' and not lk:
+                    # an explicitly given empty per-label map means "all defaults" for writing - not "use the Bus's own configuration"
+                    wcfg = {}
+                    cfg = sf.StoreConfig(index_depth=1, columns_depth=1)
+                elif cform == 'empty_dict':
+                    cform = 'map'
+                elif cform == 'bare':
                     cfg = sf.StoreConfig(index_depth=1, columns_depth=1, **lk)
                 elif cform == 'default':
                     cfg = sf.StoreConfigMap(default=sf.StoreConfig(index_depth=1, columns_depth=1, **lk))
@@ -1222,6 +1229,7 @@ class StoreWorld(WorldBase):
                 return 'skip'  # an empty table name is outside what SQLite accepts
         else:
             cfg = self._store_config(specs, False, fmt)
+        wcfg_ = wcfg if fmt != 'zip_pickle' else None
         nf = SimFile(os.path.join(self.dir, f'store{op["fid"]}' + EXT[fmt]), fmt)
         nf.labels = list(labs)
         nf.cfg = cfg
@@ -1233,7 +1241,7 @@ class StoreWorld(WorldBase):
             if fmt == 'zip_pickle' and cfg is None:
                 bus.to_zip_pickle(nf.path)
             else:
-                getattr(bus, 'to_' + fmt)(nf.path, config=cfg)
+                getattr(bus, 'to_' + fmt)(nf.path, config=(cfg if wcfg_ is None else wcfg_))
             return [], None
         if self.config.get('int_labels') and op.get('noenc') and self._stale_kind(e) is None:
             # labels that are not strings, exported without a label encoder: refused, or else the reopened store has the same labels
